@@ -106,7 +106,7 @@ def durationNs (v : Dec) (u : Unit) : Option Int :=
   match u with
   | .hour => some (i * 3600 * nsPerSec)
   | .minute => some (i * 60 * nsPerSec)
-  | .second => some (Dec.intPartBig ⟨(Dec.round v 3).coeff, (Dec.round v 3).exp + 3⟩ * 1000000)
+  | .second => some (Dec.intPartBig ⟨v.coeff, v.exp + 3⟩ * 1000000)      -- whole milliseconds, the rest dropped
   | .millisecond => some (i * 1000000)
   | _ => none
 
